@@ -1893,6 +1893,14 @@ func (te *TemplateEngine) replaceVariablesInXMLPart(xmlData []byte, data *Templa
 
 // escapeXMLContent 转义XML特殊字符
 func (te *TemplateEngine) escapeXMLContent(s string) string {
+	// 去除XML 1.0不允许的字符（控制字符、非法UTF-8等），否则页眉页脚部件将无法解析
+	s = strings.Map(func(r rune) rune {
+		if r == 0x9 || r == 0xA || r == 0xD || (r >= 0x20 && r <= 0xD7FF) ||
+			(r >= 0xE000 && r <= 0xFFFD) || (r >= 0x10000 && r <= 0x10FFFF) {
+			return r
+		}
+		return -1
+	}, strings.ToValidUTF8(s, ""))
 	s = strings.ReplaceAll(s, "&", "&amp;")
 	s = strings.ReplaceAll(s, "<", "&lt;")
 	s = strings.ReplaceAll(s, ">", "&gt;")
